@@ -121,10 +121,13 @@ def gen(rng, **force):
         return {'dtype': dtype, 'shape': [len(data), 1] if o['vec2d'] else [len(data)], 'data': list(data)}
     if o['labels']:
         files['channel_labels.npy'] = vec('int32', [rng.randrange(3) for _ in range(nc)])
+    def cvec(data):
+        # a single cluster: a (1,1) array is not an (n,1) vector (numpy.squeeze makes it 0-dimensional): store (1,)
+        return vec('int32', data) if len(data) > 1 else {'dtype': 'int32', 'shape': [1], 'data': list(data)}
     if o['cluster_probes'] and nclu <= 64:
-        files['cluster_probes.npy'] = vec('int32', [rng.randrange(2) for _ in range(nclu)])
+        files['cluster_probes.npy'] = cvec([rng.randrange(2) for _ in range(nclu)])
     if o['cluster_shanks'] and nclu <= 64:
-        files['cluster_shanks.npy'] = vec('int32', [rng.randrange(2) for _ in range(nclu)])
+        files['cluster_shanks.npy'] = cvec([rng.randrange(2) for _ in range(nclu)])
     if o['drift']:
         nd = rng.randint(2, 4)
         files['drift.times.npy'] = {'dtype': 'float64', 'shape': [nd], 'data': [float(i) for i in range(nd)]}
